@@ -223,7 +223,12 @@ func refactorTest(mode string, args []string) int {
 		}
 		return 0
 	}
-	for _, cd := range cands {
+	shardI, shardN := 0, 1
+	fmt.Sscanf(os.Getenv("VERIF_SHARD"), "%d/%d", &shardI, &shardN)
+	for idx, cd := range cands {
+		if shardN > 1 && idx%shardN != shardI {
+			continue
+		}
 		nn := cd.fn.Name() + "Zq"
 		ov := applyEdits(cd.pkg.Fset, identEdits(cd.pkg, map[types.Object]string{cd.fn: nn}))
 		c, err := load(repoDir(), ov, "")
